@@ -23,19 +23,22 @@ for d in sorted(glob.glob("/verif/seeded/C*m[0-9]")):
     if runs:
         meta["checks_run"] = runs
         json.dump(meta, open(d + "/meta.json", "w"), indent=1)
-    what = " ".join(meta["needs_to_manifest"][:2])[:260].replace("|", "/").replace("\n", " ")
+    what = " ".join(meta["needs_to_manifest"][:2])[:200].replace("|", "/").replace("\n", " ")
     rows.append((os.path.basename(d), meta["property"], what, res, meta.get("note", ""), meta.get("checks_run")))
 L = ["# SENSITIVITY — seeded changes vs. checks", "",
      "Each seeded change was written by an independent sub-agent that saw only the text of one property and a scratch worktree of /repo; it compiles, passes the",
      "whole existing test suite, and comes with a demonstration that fails with it and passes without it (confirmed by `vp/seedtest.py confirm`, see meta.json).",
      "Checks were run against each change in a scratch worktree (`VERIF_REPO`, `vp/seedtest.py checkwt`), i.e. the same code path as the registered command with the",
      "path dependencies redirected; spot checks with `git -C /repo apply` gave the same verdicts.", "",
-     "| change | property | what it needs | quick tier | thorough tier | remark |", "|---|---|---|---|---|---|"]
+     "| change | property | what it needs | quick tier | thorough tier | first line reported |", "|---|---|---|---|---|---|"]
 for name, prop, what, res, note, cr in rows:
     rem = note or ""
-    if cr and isinstance(cr, list) and cr and isinstance(cr[0], dict):
-        rem = cr[0].get("result", "")[:200]
+    ls = (res.get("quick_lines") or res.get("thorough_lines") or [])
+    if ls:
+        rem = ls[0][:180]
     L.append("| %s | %s | %s | %s | %s | %s |" % (name, prop, what, res.get("quick", "-"), res.get("thorough", "-"), rem.replace("|", "/")))
+L += ["", "Verdicts: DETECTED = exit 1 with a VIOLATION line whose counterexample reproduced on the changed code; inconclusive = exit 2 (the change uses a construct",
+      "outside the encoded subset, or the bound no longer covers the code: fail-closed, never reported as a pass); missed = exit 0.", ""]
 open("/verif/SENSITIVITY.md", "w").write("\n".join(L) + "\n")
 det = sum(1 for r in rows if r[3].get("quick") == "DETECTED" or r[3].get("thorough") == "DETECTED")
 print(len(rows), "changes;", det, "detected")
